@@ -42,6 +42,7 @@ import (
 	"github.com/protolambda/ztyp/tree"
 	"github.com/protolambda/ztyp/view"
 
+	"verifharness/internal/chain"
 	"verifharness/internal/hreg"
 )
 
@@ -125,6 +126,43 @@ func init() {
 	})
 	add("deneb.ExecutionPayloadHeaderView", func() interface{} { return new(deneb.ExecutionPayloadHeader) }, (*deneb.ExecutionPayloadHeaderView)(nil), func(s interface{}) (interface{}, error) {
 		return deneb.AsExecutionPayloadHeader(loadBytes(s, deneb.ExecutionPayloadHeaderType))
+	})
+	// the remaining container views of eth2/beacon (not reachable from a state accessor)
+	add("common.SignedBLSToExecutionChangeView", func() interface{} { return new(common.SignedBLSToExecutionChange) }, (*common.SignedBLSToExecutionChangeView)(nil), func(s interface{}) (interface{}, error) {
+		return common.AsSignedBLSToExecutionChange(loadBytes(s, common.SignedBLSToExecutionChangeType))
+	})
+	add("phase0.AttestationDataView", func() interface{} { return new(phase0.AttestationData) }, (*phase0.AttestationDataView)(nil), func(s interface{}) (interface{}, error) {
+		return phase0.AsAttestationData(loadBytes(s, phase0.AttestationDataType))
+	})
+	add("phase0.HistoricalBatchView", func() interface{} { return new(phase0.HistoricalBatch) }, (*phase0.HistoricalBatchView)(nil), func(s interface{}) (interface{}, error) {
+		return phase0.AsHistoricalBatch(loadBytes(s, phase0.HistoricalBatchType(spec)))
+	})
+	add("phase0.PendingAttestationView", func() interface{} { return new(phase0.PendingAttestation) }, (*phase0.PendingAttestationView)(nil), func(s interface{}) (interface{}, error) {
+		return phase0.AsPendingAttestation(loadBytes(s, phase0.PendingAttestationType(spec)))
+	})
+	add("altair.SyncAggregateView", func() interface{} { return new(altair.SyncAggregate) }, (*altair.SyncAggregateView)(nil), func(s interface{}) (interface{}, error) {
+		return altair.AsSyncAggregate(loadBytes(s, altair.SyncAggregateType(spec)))
+	})
+	add("altair.SyncCommitteeMessageView", func() interface{} { return new(altair.SyncCommitteeMessage) }, (*altair.SyncCommitteeMessageView)(nil), func(s interface{}) (interface{}, error) {
+		return altair.AsSyncCommitteeMessage(loadBytes(s, altair.SyncCommitteeMessageType))
+	})
+	add("altair.SyncCommitteeContributionView", func() interface{} { return new(altair.SyncCommitteeContribution) }, (*altair.SyncCommitteeContributionView)(nil), func(s interface{}) (interface{}, error) {
+		return altair.AsSyncCommitteeContribution(loadBytes(s, altair.SyncCommitteeContributionType(spec)))
+	})
+	add("altair.ContributionAndProofView", func() interface{} { return new(altair.ContributionAndProof) }, (*altair.ContributionAndProofView)(nil), func(s interface{}) (interface{}, error) {
+		return altair.AsContributionAndProof(loadBytes(s, altair.ContributionAndProofType(spec)))
+	})
+	add("altair.SignedContributionAndProofView", func() interface{} { return new(altair.SignedContributionAndProof) }, (*altair.SignedContributionAndProofView)(nil), func(s interface{}) (interface{}, error) {
+		return altair.AsSignedContributionAndProof(loadBytes(s, altair.SignedContributionAndProofType(spec)))
+	})
+	add("bellatrix.ExecutionPayloadView", func() interface{} { return new(bellatrix.ExecutionPayload) }, (*bellatrix.ExecutionPayloadView)(nil), func(s interface{}) (interface{}, error) {
+		return bellatrix.AsExecutionPayload(loadBytes(s, bellatrix.ExecutionPayloadType(spec)))
+	})
+	add("capella.ExecutionPayloadView", func() interface{} { return new(capella.ExecutionPayload) }, (*capella.ExecutionPayloadView)(nil), func(s interface{}) (interface{}, error) {
+		return capella.AsExecutionPayload(loadBytes(s, capella.ExecutionPayloadType(spec)))
+	})
+	add("deneb.ExecutionPayloadView", func() interface{} { return new(deneb.ExecutionPayload) }, (*deneb.ExecutionPayloadView)(nil), func(s interface{}) (interface{}, error) {
+		return deneb.AsExecutionPayload(loadBytes(s, deneb.ExecutionPayloadType(spec)))
 	})
 }
 
@@ -378,6 +416,9 @@ func fill(rng *rand.Rand, v reflect.Value, nvals int) {
 			case "SyncCommitteeBits":
 				b = make([]byte, (uint64(spec.SYNC_COMMITTEE_SIZE)+7)/8)
 				rng.Read(b)
+			case "SyncCommitteeSubnetBits":
+				b = make([]byte, (uint64(spec.SYNC_COMMITTEE_SIZE)/common.SYNC_COMMITTEE_SUBNET_COUNT+7)/8)
+				rng.Read(b)
 			case "AttestationBits":
 				n := rng.Intn(40)
 				b = make([]byte, n/8+1)
@@ -614,13 +655,37 @@ func gen(o hreg.Opts, w *bufio.Writer) error {
 				}
 			}
 			if strings.HasSuffix(d.key, "BeaconStateView") {
-				for k := 0; k < 10; k++ {
+				for k := 0; k < 16; k++ {
 					idx := rng.Uint64() >> uint(rng.Intn(64))
 					var r32 [32]byte
 					rng.Read(r32[:])
 					var u8 [8]byte
 					rng.Read(u8[:])
-					switch rng.Intn(9) {
+					switch rng.Intn(15) {
+					case 9:
+						i := rng.Intn(nvals + 1)
+						emit("elem", " InactivityScores SetScore %d %s", i, hx(u8[:]))
+						emit("elem", " InactivityScores GetScore %d", i)
+					case 10:
+						i := rng.Intn(nvals + 1)
+						g := []string{"PreviousEpochParticipation", "CurrentEpochParticipation"}[rng.Intn(2)]
+						emit("elem", " %s SetFlags %d %s", g, i, hx([]byte{byte(rng.Intn(8))}))
+						emit("elem", " %s GetFlags %d", g, i)
+						emit("elem", " PreviousEpochParticipation GetFlags %d", i)
+					case 11:
+						emit("elem", " HistoricalRoots Append 0 %s", hx(r32[:]))
+						emit("get", " HistoricalRoots")
+					case 12:
+						var e1 [72]byte
+						rng.Read(e1[:])
+						emit("elem", " Eth1DataVotes Append 0 %s", hx(e1[:]))
+						emit("elem", " Eth1DataVotes Length 0")
+					case 13:
+						emit("elem", " Eth1DataVotes Reset 0")
+						emit("elem", " Eth1DataVotes Length 0")
+					case 14:
+						emit("elem", " Balances AppendBalance 0 %s", hx(u8[:]))
+						emit("elem", " Balances GetBalance %d", nvals)
 					case 0:
 						emit("elem", " BlockRoots SetRoot %d %s", idx, hx(r32[:]))
 						emit("elem", " BlockRoots GetRoot %d", idx)
@@ -885,15 +950,26 @@ func (s *session) step(f []string) string {
 		}
 		return s.diff()
 	case f[0] == "elem" && len(f) >= 4:
+		size := 0
 		switch f[1] {
-		case "BlockRoots", "StateRoots", "RandaoMixes", "Slashings", "Balances":
+		case "BlockRoots", "StateRoots", "RandaoMixes", "HistoricalRoots":
+			size = 32
+		case "Slashings", "Balances", "InactivityScores":
+			size = 8
+		case "PreviousEpochParticipation", "CurrentEpochParticipation":
+			size = 1
+		case "Eth1DataVotes":
+			size = 72
 		default:
 			return "bad-op"
 		}
 		g := rv.MethodByName(f[1])
 		idx, err := strconv.ParseUint(f[3], 10, 64)
-		if !g.IsValid() || err != nil {
+		if err != nil {
 			return "bad-op"
+		}
+		if !g.IsValid() {
+			return "unmodelled" // this fork's state has no such getter
 		}
 		out := g.Call(nil)
 		if callErr(out) {
@@ -907,9 +983,48 @@ func (s *session) step(f []string) string {
 		if !m.IsValid() {
 			return "bad-op"
 		}
+		switch f[2] {
+		case "Append", "AppendBalance":
+			if len(f) != 5 {
+				return "bad-op"
+			}
+			b, ok := unhx(f[4])
+			if !ok || len(b) != size {
+				return "bad-op"
+			}
+			a, err := argFromBytes(m.Type().In(0), b)
+			if err != nil {
+				return "bad-op"
+			}
+			if callErr(m.Call([]reflect.Value{a})) {
+				return "err"
+			}
+			return s.diff()
+		case "Reset":
+			if len(f) != 4 {
+				return "bad-op"
+			}
+			if callErr(m.Call(nil)) {
+				return "err"
+			}
+			return s.diff()
+		case "Length":
+			if len(f) != 4 {
+				return "bad-op"
+			}
+			res := m.Call(nil)
+			if callErr(res) {
+				return "err"
+			}
+			b, _ := serAny(res[0])
+			return "ok " + hx(b)
+		}
+		if m.Type().NumIn() < 1 {
+			return "bad-op"
+		}
 		args := []reflect.Value{reflect.ValueOf(idx).Convert(m.Type().In(0))}
 		switch f[2] {
-		case "GetRoot", "GetRandomMix", "GetBalance", "GetSlashingsValue":
+		case "GetRoot", "GetRandomMix", "GetBalance", "GetSlashingsValue", "GetScore", "GetFlags":
 			if len(f) != 4 {
 				return "bad-op"
 			}
@@ -923,15 +1038,12 @@ func (s *session) step(f []string) string {
 			if len(f) != 4 {
 				return "bad-op"
 			}
-		case "SetRoot", "SetRandomMix", "SetBalance", "AddSlashing":
+		case "SetRoot", "SetRandomMix", "SetBalance", "AddSlashing", "SetScore", "SetFlags":
 			if len(f) != 5 {
 				return "bad-op"
 			}
 			b, ok := unhx(f[4])
-			want := 32
-			if f[2] == "SetBalance" || f[2] == "AddSlashing" {
-				want = 8
-			}
+			want := size
 			if !ok || len(b) != want {
 				return "bad-op"
 			}
@@ -1038,6 +1150,11 @@ type handle struct {
 	state *beacon.StandardUpgradeableBeaconState
 	epc   *common.EpochsContext
 	spec  *common.Spec
+	// set for handles made by `chain`: the generated chain, the next (not yet applied) step whose pre-state
+	// the handle started from, and the single-corruption mutants of that step's block
+	ch    *chain.Chain
+	step  *chain.Step
+	muts  *[]chain.Mutant
 }
 
 type copyWorld struct {
@@ -1205,6 +1322,47 @@ func (cw *copyWorld) step(f []string) (string, bool) {
 		}
 		cw.h[f[1]] = h
 		return "ok", true
+	case "chain":
+		// chain h cfg nvals policy seed warmup: a generated valid chain (real blocks, real BLS) run for `warmup`
+		// slots; the handle is a copy of the head state + context BEFORE the next block, which is kept aside
+		if len(f) != 7 {
+			return "bad-op", true
+		}
+		cfg, err := chain.ConfigByID(f[2])
+		n, err2 := strconv.Atoi(f[3])
+		seed, err3 := strconv.ParseInt(f[5], 10, 64)
+		warm, err4 := strconv.Atoi(f[6])
+		if err != nil || err2 != nil || err3 != nil || err4 != nil {
+			return "bad-op", true
+		}
+		c, err := chain.NewChain(cfg, n, "mixed", seed)
+		if err != nil {
+			return "err", true
+		}
+		c.Policy = chain.PolicyByName(f[4])
+		if _, err := c.Run(warm); err != nil {
+			return "err", true
+		}
+		var step *chain.Step
+		for try := 0; try < 4; try++ {
+			st, err := c.NextSlot(&chain.SlotOpts{Propose: true})
+			if err != nil {
+				return "err", true
+			}
+			if !st.Skipped {
+				step = st
+				break
+			}
+		}
+		if step == nil {
+			return "err", true
+		}
+		h := &handle{state: chain.WrapState(step.Pre), epc: chain.CopyEpc(step.PreEpc), spec: c.Spec, ch: c, step: step, muts: new([]chain.Mutant)}
+		if _, ok := cw.h[f[1]]; !ok {
+			cw.order = append(cw.order, f[1])
+		}
+		cw.h[f[1]] = h
+		return "ok", true
 	case "copy":
 		if len(f) != 3 {
 			return "bad-op", true
@@ -1217,7 +1375,7 @@ func (cw *copyWorld) step(f []string) (string, bool) {
 		if err != nil {
 			return "err", true
 		}
-		b := &handle{state: &beacon.StandardUpgradeableBeaconState{BeaconState: cs}, epc: a.epc.Clone(), spec: a.spec}
+		b := &handle{state: &beacon.StandardUpgradeableBeaconState{BeaconState: cs}, epc: a.epc.Clone(), spec: a.spec, ch: a.ch, step: a.step, muts: a.muts}
 		if _, ok := cw.h[f[2]]; !ok {
 			cw.order = append(cw.order, f[2])
 		}
@@ -1238,7 +1396,10 @@ func (cw *copyWorld) step(f []string) (string, bool) {
 		for _, n := range cw.others(f[1]) {
 			before[n] = observe(cw.h[n])
 		}
-		if r := mutate(h, f[2:]); r != "" {
+		extra := ""
+		if r := mutate(h, f[2:]); strings.HasPrefix(r, "+") {
+			extra = " " + r[1:]
+		} else if r != "" {
 			return r, true
 		}
 		var same []string
@@ -1247,7 +1408,7 @@ func (cw *copyWorld) step(f []string) (string, bool) {
 				same = append(same, n)
 			}
 		}
-		return "ok unchanged=" + strings.Join(same, ","), true
+		return "ok unchanged=" + strings.Join(same, ",") + extra, true
 	}
 	return "", false
 }
@@ -1257,6 +1418,42 @@ func mutate(h *handle, a []string) string {
 	st := h.state.BeaconState
 	u := func(s string) uint64 { v, _ := strconv.ParseUint(s, 10, 64); return v }
 	switch {
+	case (a[0] == "block" && len(a) == 1) || ((a[0] == "mutant" || a[0] == "mutantvalid") && len(a) == 2):
+		// a full state transition (slots + block, signatures and state root validated) with the chain's next
+		// block, or with a single-corruption mutant of it (valid boundary mutant / arbitrary mutant). Whether
+		// the real code accepts or refuses it does not matter here: the OTHER handles must not change.
+		if h.ch == nil || h.step == nil {
+			return "bad-op"
+		}
+		blk := h.step.Block
+		if a[0] != "block" {
+			if len(*h.muts) == 0 {
+				for _, m := range h.ch.Mutations(h.step, 2) {
+					if m.Engine == nil && m.Block != nil {
+						*h.muts = append(*h.muts, m)
+					}
+				}
+			}
+			var pool []chain.Mutant
+			for _, m := range *h.muts {
+				if a[0] == "mutant" || m.ExpectValid {
+					pool = append(pool, m)
+				}
+			}
+			if len(pool) > 0 {
+				blk = pool[int(u(a[1]))%len(pool)].Block
+			}
+		}
+		verdict := "refused"
+		func() {
+			defer func() { recover() }() // a panic inside the transition of a corrupt block is C03's business
+			if chain.Transition(context.Background(), h.spec, h.epc, h.state, h.step.EnvelopeOf(blk), true, !h.ch.FollowCodeSyncCommittee) == nil {
+				verdict = "applied"
+			}
+		}()
+		if a[0] != "mutant" {
+			return "+" + verdict
+		}
 	case a[0] == "slots" && len(a) == 2:
 		cur, err := st.Slot()
 		if err != nil {
@@ -1356,7 +1553,90 @@ func mutate(h *handle, a []string) string {
 	return ""
 }
 
+// genSiblings: copies of a generated chain's head, each sibling taking a different continuation: the chain's
+// own next block, a different still-valid block, a corrupted block (refused somewhere in the middle of
+// processing), empty slots across the next epoch / fork boundary, setters and appends.
+func genSiblings(o hreg.Opts, rng *rand.Rand, w *bufio.Writer) {
+	st := o.Stats
+	n := o.Pick(8, 120)
+	cfgs := []string{"fast@1,2,3,4", "minimal@1,1,2,3", "fast@0,0,1,2", "fast@1,1,1,1", "minimal@2,3,3,4", "fast@0,0,0,0"}
+	pols := []string{"deposits", "eventful", "default", "deposits"}
+	for i := 0; i < n; i++ {
+		cfg := cfgs[i%len(cfgs)]
+		if i >= len(cfgs) && rng.Intn(3) == 0 {
+			cfg = fmt.Sprintf("rand:%d", rng.Intn(1000))
+		}
+		pol := pols[rng.Intn(len(pols))]
+		// half of the time the kept-aside block is the first block of an epoch (fork upgrades happen there)
+		warm := rng.Intn(40)
+		if rng.Intn(2) == 0 {
+			warm = 8*(1+rng.Intn(4)) - 1
+		}
+		st.Add("sibling-config", strings.SplitN(cfg, ":", 2)[0])
+		st.Add("sibling-policy", pol)
+		fmt.Fprintln(w, "reset")
+		fmt.Fprintf(w, "chain a %s %d %s %d %d\n", cfg, 32+8*rng.Intn(3), pol, rng.Intn(10000), warm)
+		fmt.Fprintln(w, "copy a b")
+		fmt.Fprintln(w, "copy a c")
+		fmt.Fprintln(w, "copy b d")
+		names := []string{"a", "b", "c", "d"}
+		did := map[string]bool{}
+		// first every sibling takes its own continuation from the common value, in random order: the chain's
+		// block, a different valid block, a corrupted block, empty slots (sometimes one sibling is touched first)
+		conts := []string{"block", "mutantvalid", "mutant", "slots"}
+		if rng.Intn(3) == 0 {
+			conts[rng.Intn(4)] = []string{"block", "mutantvalid", "balance", "addval"}[rng.Intn(4)]
+		}
+		for _, i := range rng.Perm(4) {
+			h := names[i]
+			st.Add("sibling-op", conts[i])
+			switch conts[i] {
+			case "block":
+				did[h] = true
+				fmt.Fprintf(w, "mut %s block\n", h)
+			case "mutant", "mutantvalid":
+				did[h] = true
+				fmt.Fprintf(w, "mut %s %s %d\n", h, conts[i], rng.Intn(1000))
+			case "slots":
+				fmt.Fprintf(w, "mut %s slots %d\n", h, []int{1, 8, 9, 17}[rng.Intn(4)])
+			case "balance":
+				fmt.Fprintf(w, "mut %s balance %d %d\n", h, rng.Intn(32), rng.Uint64()>>10)
+			case "addval":
+				fmt.Fprintf(w, "mut %s addval 99\n", h)
+			}
+		}
+		ops := 4 + rng.Intn(8)
+		for k := 0; k < ops; k++ {
+			h := names[rng.Intn(4)]
+			kind := []string{"block", "mutantvalid", "mutant", "mutant", "slots", "addval", "balance", "exit", "eth1vote", "block"}[rng.Intn(10)]
+			if (kind == "block" || kind == "mutant" || kind == "mutantvalid") && did[h] {
+				kind = "slots" // the kept-aside block only fits the state it was built for
+			}
+			st.Add("sibling-op", kind)
+			switch kind {
+			case "block":
+				did[h] = true
+				fmt.Fprintf(w, "mut %s block\n", h)
+			case "mutant", "mutantvalid":
+				did[h] = true
+				fmt.Fprintf(w, "mut %s %s %d\n", h, kind, rng.Intn(1000))
+			case "slots":
+				fmt.Fprintf(w, "mut %s slots %d\n", h, []int{1, 3, 8, 9, 17}[rng.Intn(5)])
+			case "addval":
+				fmt.Fprintf(w, "mut %s addval %d\n", h, k)
+			case "balance":
+				fmt.Fprintf(w, "mut %s balance %d %d\n", h, rng.Intn(32), rng.Uint64()>>10)
+			case "exit":
+				fmt.Fprintf(w, "mut %s exit %d %d\n", h, rng.Intn(32), 50+rng.Intn(100))
+			case "eth1vote":
+				fmt.Fprintf(w, "mut %s eth1vote %d\n", h, rng.Intn(1000))
+			}
+		}
+	}
+}
+
 func genCopies(o hreg.Opts, rng *rand.Rand, w *bufio.Writer) {
+	genSiblings(o, rng, w)
 	st := o.Stats
 	n := o.Pick(25, 500)
 	forks := []string{"phase0", "altair", "bellatrix", "capella", "deneb"}
